@@ -136,6 +136,7 @@ class Session:
         rec.steps = rec.obj_calls = rec.generations = 0
         self.cur_opt, self.cur = opt, rec
         sim.entropy_label = entropy_label
+        sim._entropy_by_label.pop(repr(entropy_label), None)     # every call starts the label's sequence afresh
         c0 = dict(sim.counters)
         d0 = sum(c.ndraws for c in sim.ctxs)
         ev0 = sim.nevents
